@@ -4,7 +4,7 @@ package main
 // the group builder) and the mock coordinator's journal (M.Call/M.Ret) are recorded in one totally ordered log,
 // converted to the event alphabet of Model/GroupRun.lean and replayed step by step (no search) by the oracle.
 // `canon` is copied from go/cmd/c15/main.go (the C15 builder's canonicaliser) so that both properties read the hook
-// trace the same way.
+// trace the same way; added here: `cOpen:<n>` / `cClose:<n>` tokens for the coordinator connections (mock journal).
 
 import (
 	"context"
@@ -73,6 +73,9 @@ func canon(evs []kafka.VerifEvent, topics []string) (string, map[string]int) {
 			switch method {
 			case "connect":
 				add("connectRes:" + ec)
+				if ec == "-" {
+					add("cOpen:" + conn) // (C09) a coordinator connection now exists
+				}
 			case "findCoordinator":
 				add("findRes:" + ec)
 			case "joinGroup":
@@ -103,6 +106,8 @@ func canon(evs []kafka.VerifEvent, topics []string) (string, map[string]int) {
 					add("partsRes:" + ec)
 				}
 			}
+		case "M.Close":
+			add("cClose:" + a[0]) // (C09) the library closed that connection
 		case "G.New":
 			genIdx[a[1]] = len(genIdx)
 			connGen[lastJoinConn] = genIdx[a[1]]
@@ -171,7 +176,14 @@ func canon(evs []kafka.VerifEvent, topics []string) (string, map[string]int) {
 func grunScenario(kind int, r *rand.Rand) (string, string) {
 	base := libGoroutines()
 	coord := []string{"ok", "joinerr", "rebalance", "slowjoin"}[kind%4]
-	s := &rscenario{cfg: rcfg{mode: "cg", coord: coord}, rec: &recorder{}, nextC: 1, done: map[int]chan struct{}{}, cancel: map[int]context.CancelFunc{}}
+	cfg := rcfg{mode: "cg", coord: coord}
+	switch kind / 4 {
+	case 1: // LeaveGroup rejected / dropped after a complete join, sync, offset fetch and generation
+		cfg.faultAt, cfg.faultNth, cfg.faultKind = "leaveGroup", r.Intn(2), pickFault(r)
+	case 2: // a fault at any other coordinator step
+		cfg.faultAt, cfg.faultNth, cfg.faultKind = pickStep(r), r.Intn(3), pickFault(r)
+	}
+	s := &rscenario{cfg: cfg, rec: &recorder{}, nextC: 1, done: map[int]chan struct{}{}, cancel: map[int]context.CancelFunc{}}
 	if coord == "slowjoin" {
 		s.holdJoin = make(chan struct{})
 	}
@@ -244,6 +256,7 @@ func grunScenario(kind int, r *rand.Rand) (string, string) {
 	case <-closed:
 	case <-time.After(watchdog()):
 		status = append(status, "close-stuck")
+		noteStuck()
 	}
 	next(watchdog())
 	log.Settle(20*time.Millisecond, 500*time.Millisecond)
@@ -262,14 +275,17 @@ func grunScenario(kind int, r *rand.Rand) (string, string) {
 }
 
 func grunPart(seed int64) {
-	reps := 3
+	reps := 2
 	if gen.Thorough() {
-		reps = 15
+		reps = 8
 	}
 	n := 0
 	for rep := 0; rep < reps; rep++ {
-		for kind := 0; kind < 4; kind++ {
+		for kind := 0; kind < 12; kind++ {
 			n++
+			if tooManyStuck() {
+				return
+			}
 			if only("grun", n) {
 				op, impl := grunScenario(kind, scRand(seed, 4, n))
 				emitSc(n, op, impl)
